@@ -1,52 +1,68 @@
 (* Properties_C02c.v — C02 (compile correctness), stage 4: NESTED FUNCTIONS AND CLOSURES.
 
    State of stage 4.
-   MODEL + TIE (complete): Src/Compile4.v (the emitter's closure code: free-variable lists of
-   front/gencode.c, closure creation, runs of sibling functions ALLOC/REWRITE, ID_GLOBAL / COPYGLOB, callee
-   expressions, nested self tail calls, bodies breadth-first) and VM/ValueVM4.v (typed heap cells, register
-   gp) are tied at level 4 of checks/parts/compiletie.py: the model's whole module image equals the real
-   module, ValueVM4 equals the real VM (result, prints, exception, peak sp, instruction count) and the
-   evaluator, on generated programs of `prog_in_F4` (F5 + closures).
-   PROOF (partial — there is NO compile_program_correct_F4 yet).  Closed, below:
-     machine side      closure_run, sibling_run (the REWRITE knot), step lemmas, and the three C08 facts on the
-                       machine (C08_cells_outlive_activation, C08_fresh_environment,
-                       C08_write_visible_to_holders);
-     simulation cases  (relation MS4 / fun_rel / env_rel of Src/CompileCorrect4Sim.v: env_match with captured
-                       slots)  var_read_sim, lambda_creation_sim, sibling_run_sim (the evaluator's recursive
-                       environment e' = the machine's slots after the knot), closure_entry_env (the callee of a
-                       function object starts with parameters and captured names related: the environment
-                       body_spec must be indexed by).
-   MISSING for compile_program_correct_F4, precisely:
-     (1) the induction over evaluator fuel of Src/CompileCorrect3.v (six components: expr, items, while,
-         do-while, tail, tail-items; handlers_run; body_of_specs) re-done over ValueVM4 / Compile4 with env_rel
-         in place of env_match and a body_spec quantified over (kind, fd, cenv, vec) with fun_rel instead of the
-         static function table; its F1/F2/F3/F5 cases are those of CompileCorrect3.v modulo HInt payloads and
-         the gp field (gp is restored by RET from the MARK header: post_ok keeps `v_fr s' = v_fr s`);
-     (2) the call case through a function OBJECT (MARK; args; callee expression; CALL with
-         step_call_closure, then closure_entry_env), and the tail variant for a nested self call;
-     (3) BY-VALUE COPIES: `EVar f` for a top-level f (GLOBAL_VEC 0; ID_FUNC_ADDR) and for the running
-         nested function (COPYGLOB; ID_FUNC_ADDR, step_copyglob_self) make a NEW function object where the
-         evaluator returns the ONE cell of f: the result relation must allow "a is a copy of the image of c"
-         (same vector, same address), for slots, parameters, vector entries alike; MS4 here has exact images only;
-     (4) ASSIGNMENT needs m injective on int cells and the left cell to hold an int; Src/Eval.v is untyped
-         (an int-declared parameter can receive a function cell from an ill-typed call), so either a typing
-         hypothesis (Src/TypeSafety.v: eval_type_safe gives the store typing) or a dynamic side condition has to
-         enter the statement; `int_shaped` right-hand sides (prog_in_F4) already make the RIGHT cell an int;
-     (5) the layout of `all_funcs` (breadth-first levels): every function nested in a function of the image is in
-         the image, `fidx` of its name is its index (needs names_ok), its segments are where ftable says
-         (the analogue of CompileCorrect3Prog.prog_ok_image), and the stub.
+   MODEL + TIE (complete): Src/Compile4.v and VM/ValueVM4.v are tied at level 4 of checks/parts/compiletie.py on
+   generated programs of `prog_in_F4` (F5 + closures).
+   PROOF: compile_program_correct_F4_partial (below) — whole programs with nested functions and closures,
+   for the fragment `Compile4.prog_in_P 5` = F2 + calls of top-level functions by name + CLOSURES:
+     runs of sibling function items (mutually visible, the ALLOC / REWRITE knot), function expressions, captured
+     parameters / let / var / nested functions at any depth (ID_GLOBAL), assignment through a capture, function
+     values bound, passed, returned and called after the definer returned, calls whose callee is any expression
+     that yields a function value; faults inside closures (RETHROW chain).
+   By one induction on the evaluator's fuel over ValueVM4 / Compile4 (Src/CompileCorrect4.v: expr / items /
+   while / do-while specs for every function context, body_spec quantified over (kind, fd, closure environment,
+   vector) with the relation of Src/CompileCorrect4Rel.v: env_match with captured slots, fun_rel, the ghost list
+   of vectors) and the layout of `all_funcs` + the entry stub (Src/CompileCorrect4Prog.v).
+   NOT in the partial fragment (what is missing for the tie's full prog_in_F4), precisely:
+     (a) self calls in TAIL position (expr_last_call_emit) and CATCH CLAUSES: func_in_P demands no_catch and
+         no_self_tail_fd; the tail / handlers machinery of Src/CompileCorrect3.v (tcase_*, titems_*, handlers_run,
+         clause_block: about 900 lines) is not ported to ValueVM4 yet — mechanical (gp is preserved by CLEAR_STACK);
+     (b) BY-VALUE COPIES of function objects: the name of a top-level function used as a VALUE (it may only be
+         called), and the name of the running nested function inside its own body (COPYGLOB; ID_FUNC_ADDR: direct
+         recursion of a nested function; mutual recursion through sibling slots IS covered): the machine makes a new
+         function object where the evaluator returns the one cell; needs "a is a copy of the image of c" in the
+         value relation (and the evaluator invariant that the cell f's environment binds f to holds f's closure);
+     (c) the right-hand side of an assignment must be `int_shaped` (Src/CompileCorrect4Shape.v proves that such an
+         expression yields an int cell: no typing hypothesis is needed; `x = y + 0` for `x = y`);
+     (d) bound names: a block's function run does not shadow a name in scope (run_ok), nested functions are not
+         named like top-level functions; all function names pairwise different (prog_in_P).
+   The lemmas of the first proof round (machine side, C08 facts, simulation cases over MS4) stay below.
    No axioms. *)
 From Coq Require Import ZArith List Bool Lia.
 From NV Require Import Gen.Opcodes Verifier.Effect Src.Syntax Src.Eval Src.EvalLemmas
   VM.ValueVM4 Src.Compile4 Src.CompileCorrect4Base Src.CompileCorrect4Sim.
+From NV Require Src.CompileCorrect4Rel Src.CompileCorrect4Shape Src.CompileCorrect4 Src.CompileCorrect4Prog.
 Import ListNotations.
 Local Open Scope Z_scope.
+
+(* ==== whole programs with closures ================================================================== *)
+
+(* ValueVM4 on the module image of Compile4 — from the entry stub to HALT / UNHANDLED_EXCEPTION — returns /
+   prints / raises what the evaluator says, for programs of the fragment prog_in_P 5 (see the header: closures
+   yes; tail self calls, catch clauses, by-value copies of function objects not yet) *)
+Theorem compile_program_correct_F4_partial : forall fuel p args,
+  prog_in_P 5 p = true ->
+  match run_program fuel p args with
+  | OResult v printed =>
+      CompileCorrect4Shape.is_intv v = true ->
+      exists k z, run_vm p k args = VRet z printed /\ CompileCorrect4Rel.val_rel v z
+  | OUnhandled ex printed => exists k, run_vm p k args = VExc ex printed
+  | OFuel | OStuck => True
+  end.
+Proof. exact (fun fuel p args H => CompileCorrect4Prog.compile_program_correct_P p args 5 H fuel). Qed.
+Print Assumptions compile_program_correct_F4_partial.
+
+(* the evaluator-only fact behind side condition (c): an int_shaped expression yields an int / bool cell *)
+Theorem int_shaped_cell : forall genv k e env st c st' v, int_shaped e = true ->
+  eval genv k env st e = (ROk c, st') -> get_cell st' c = Some v -> CompileCorrect4Shape.is_intv v = true.
+Proof. exact CompileCorrect4Shape.int_shaped_cell. Qed.
+Print Assumptions int_shaped_cell.
 
 (* ==== machine side =================================================================================== *)
 
 (* func_emit_native: ONE new vector holding the captured ADDRESSES (no copies), ONE new function object *)
 Theorem closure_run : forall X prog FT TL fc ce stk gl h o fr L g addrs pc k,
-  nth_error h (r_gp fr) = Some (HVec gl) ->
+  gl = [] \/ nth_error h (r_gp fr) = Some (HVec gl) ->
   Forall2 (resolves fc L ce stk gl) (fvs_fd TL g) addrs ->
   fidx FT (fd_name g) = Z.of_nat k ->
   code_at prog pc (closure_code FT TL fc L ce g) ->
@@ -60,7 +76,7 @@ Print Assumptions closure_run.
    function i with a vector of the addresses its free variables resolve to — a sibling's name resolves to the
    sibling's SLOT CELL (Compile4.func_cenv), also when that sibling is filled later — and the old heap is kept *)
 Theorem sibling_run : forall X prog FT TL fc ce gl stk h o fr L fds addrss ks pc,
-  nth_error h (r_gp fr) = Some (HVec gl) ->
+  gl = [] \/ nth_error h (r_gp fr) = Some (HVec gl) ->
   let k := length fds in
   let Sk := rev (seq (length h) k) ++ stk in
   Forall2 (fun fd addrs => Forall2 (resolves fc L ce Sk gl) (fvs_fd TL fd) addrs) fds addrss ->
@@ -224,6 +240,10 @@ Example ex4_in_F4 :
   fvs_fd (tnames ex4) inc4 = [3; 2]%N /\ fvs_fd (tnames ex4) get4 = [4%N] /\
   fvs_fd (tnames ex4) lam4 = [4; 6]%N /\ length (compile_program ex4) = 470%nat.
 Proof. vm_compute. repeat split; reflexivity. Qed.
+
+(* the program is in the fragment of compile_program_correct_F4_partial *)
+Example ex4_in_P : prog_in_P 5 ex4 = true.
+Proof. vm_compute. reflexivity. Qed.
 
 (* on 5: f = mk(5) has c = 10, g = mk(6) its OWN c = 12 (distinct activations, distinct cells);
    f(1) adds 1 + 5 -> 16, g(2) adds 2 + 6 -> 20, f(3) -> 24 (f's c outlived mk's activation and is not g's);
